@@ -382,6 +382,15 @@ class PrettyPrinter:
         if isinstance(value, bool):
             return str(value).upper()
 
+        # a keyword declared as {"allOf": [<schema>], "metadata": {...}} only wraps <schema>
+        # (used to attach version details to a $ref) - use the wrapped schema to decide on quoting
+        while (
+            len(attr_props.get("allOf", [])) == 1
+            and isinstance(attr_props["allOf"][0], dict)
+            and not any(i in attr_props for i in ("enum", "type", "oneOf", "anyOf"))
+        ):
+            attr_props = attr_props["allOf"][0]
+
         if any(i in ["enum"] for i in attr_props):
             if isinstance(value, dict) and not value:
                 raise ValueError(
